@@ -475,6 +475,31 @@ func (pr *PathResult) ErrOutcome(idx int) string {
 		return "nonnil"
 	}
 	out := "maybe"
+	if vc, ok := v.(*ssa.Call); ok && vc.Common().StaticCallee() != nil {
+		// `if x.F() != nil { return x.F() }`: a repeated call of the same method on
+		// the same receiver that was just found non-nil
+		for _, c := range pr.State.Taken {
+			x, isNil, ok := NilCmp(c)
+			if !ok {
+				continue
+			}
+			if xc, ok := x.(*ssa.Call); ok && xc != vc && xc.Common().StaticCallee() == vc.Common().StaticCallee() && len(xc.Common().Args) == len(vc.Common().Args) {
+				same := true
+				for i := range xc.Common().Args {
+					if xc.Common().Args[i] != vc.Common().Args[i] && !SameLoad(xc.Common().Args[i], vc.Common().Args[i]) {
+						same = false
+					}
+				}
+				if same {
+					if isNil {
+						out = "nil"
+					} else {
+						out = "nonnil"
+					}
+				}
+			}
+		}
+	}
 	for _, c := range pr.State.Taken {
 		x, isNil, ok := NilCmp(c)
 		if !ok {
